@@ -635,7 +635,7 @@ def known_map(prop):
 def write_replay(prop, record):
     sig = record['signature']
     h = hashlib.sha1(sig.encode()).hexdigest()[:10]
-    d = os.path.join(VERIF, 'replays', prop)
+    d = os.path.join(os.environ.get('VERIF_REPLAY_DIR') or os.path.join(VERIF, 'replays'), prop)
     os.makedirs(d, exist_ok=True)
     path = os.path.join(d, '%s.json' % h)
     with open(path, 'w') as f:
